@@ -40,8 +40,11 @@ type Cfg struct {
 }
 
 // Event kinds: "R" replica probe round with outcome A (N>1: N rounds, PingPeriod apart),
-// "M" master probe round with outcome A, "E" a client read hits a connection error on the
-// replica, "T" the clock advances by D seconds.
+// "M" master probe round with outcome A, "E" a client read selects the replica through the real
+// GetSlaveConn (only possible while it is up) and hits a connection error, "L" a LATE connection
+// error: a session that had selected the replica earlier only now gets its connection error —
+// the real getConnWithFuse(node) is called for the replica whatever its status is by now,
+// "T" the clock advances by D seconds.
 type Event struct {
 	K string `json:"k"`
 	A string `json:"a,omitempty"`
@@ -53,8 +56,8 @@ func (e Event) String() string {
 	switch e.K {
 	case "T":
 		return fmt.Sprintf("T+%d", e.D)
-	case "E":
-		return "E"
+	case "E", "L":
+		return e.K
 	}
 	if e.N > 1 {
 		return fmt.Sprintf("%s:%sx%d", e.K, e.A, e.N)
@@ -281,6 +284,10 @@ func (w *World) Apply(e Event) {
 	case "E":
 		w.getErr = mysql.NewConnTypeError(w.rPool.AddrS, "failed to dial")
 		_, _ = w.Slice.GetSlaveConn(w.Slice.Slave, backend.LocalSlaveReadClosed)
+		w.getErr = nil
+	case "L":
+		w.getErr = mysql.NewConnTypeError(w.rPool.AddrS, "failed to dial")
+		_, _ = backend.VerifGetConnWithFuse(w.Slice, w.Replica)
 		w.getErr = nil
 	case "M":
 		w.mOut = e.A
